@@ -164,3 +164,51 @@ func VerifH_C05_SnapshotAlgebra() {
 	}
 	zzverif.Assert(len(s1.parts) == wantLen && s1.ref == 1 && s1.epoch == 2, "the next snapshot holds exactly the specified parts")
 }
+
+func c05StubPersist(_ *tsTable, _ *snapshot) {}
+
+//verif:harness prop=C05 tier=quick,thorough reach=finished native=off paths=2000000 depth=400 redirect=tsTable.persistSnapshot:c05StubPersist
+// Queries versus maintenance under EVERY interleaving: one or two readers pin the current
+// snapshot (currentSnapshot), look at its parts and release it, while the introducer replaces
+// the snapshot with the result of a merge (one part merged away, one new part). A reader always
+// gets a snapshot whose parts are all still open and on disk for as long as it holds the pin -
+// either the old or the new snapshot, never a mixture; the merged-away part is closed and deleted
+// exactly once, after its last reader; the survivors end with exactly the new snapshot's reference.
+// bound: 2 parts, 1 merge introduction, 1 reader (thorough 2 readers); all interleavings of the atomic and lock operations
+// assume: sequential consistency of sync/atomic and mutex operations
+func VerifH_C05_ReadersVsIntroducer() {
+	rec := &c05FS{removed: map[string]int{}}
+	p1, p2, p3 := c05NewPart(1, rec), c05NewPart(2, rec), c05NewPart(3, rec)
+	tst := &tsTable{snapshot: &snapshot{epoch: 1, ref: 1, parts: []*partWrapper{p1.pw, p2.pw}}}
+	old := tst.snapshot
+	reader := func() {
+		s := tst.currentSnapshot()
+		zzverif.Assert(s != nil, "a reader always finds a current snapshot")
+		if s == nil {
+			return
+		}
+		zzverif.Yield()
+		isOld := s == old
+		if isOld {
+			zzverif.Assert(len(s.parts) == 2 && s.parts[0] == p1.pw && s.parts[1] == p2.pw, "the old snapshot still lists exactly its parts while pinned")
+			zzverif.Assert(*p1.closes == 0 && *p2.closes == 0 && rec.removed["p1"] == 0 && rec.removed["p2"] == 0, "parts of a pinned snapshot are open and on disk")
+		} else {
+			zzverif.Assert(len(s.parts) == 2 && s.parts[0] == p2.pw && s.parts[1] == p3.pw, "the new snapshot lists the survivor and the merge result, never the merged-away part")
+			zzverif.Assert(*p2.closes == 0 && *p3.closes == 0 && rec.removed["p2"] == 0 && rec.removed["p3"] == 0, "parts of a pinned snapshot are open and on disk")
+		}
+		s.decRef()
+	}
+	introducer := func() {
+		tst.introduceMerged(&mergerIntroduction{merged: map[uint64]struct{}{1: {}}, newPart: p3.pw, creator: snapshotCreatorMerger}, 2)
+	}
+	if zzverif.Thorough() {
+		zzverif.Par(reader, reader, introducer)
+	} else {
+		zzverif.Par(reader, introducer)
+	}
+	zzverif.Reach("finished")
+	zzverif.Assert(tst.snapshot != old && tst.snapshot.epoch == 2 && tst.snapshot.ref == 1, "the merge result is published with one reference")
+	zzverif.Assert(old.ref == 0, "the replaced snapshot is fully released")
+	zzverif.Assert(*p1.closes == 3 && rec.removed["p1"] == 1, "the merged-away part is closed and deleted exactly once")
+	zzverif.Assert(*p2.closes == 0 && *p3.closes == 0 && p2.pw.ref == 1 && p3.pw.ref == 1 && rec.removed["p2"] == 0 && rec.removed["p3"] == 0, "surviving parts stay open with exactly the new snapshot's reference")
+}
